@@ -29,7 +29,8 @@ GOALS = {'quick': ['same template merged twice', 'overlapping nested key',
          'thorough': ['same template merged twice', 'overlapping nested key',
                       'embedded two levels deep']}
 STUBS = ['composer with two pure processes (symbolic constant timesteps, '
-         'symbolic delta) and one flow step; recording emitter']
+         'symbolic delta) and three flow steps (two in one layer, one '
+         'dependent); recording emitter']
 ASSUMPTIONS = ['stub processes keep the default initial_state() ({}): '
                'Composite.generate_store folds the processes\' own initial '
                'states in while Engine(composite=...) uses composite["state"], '
@@ -63,21 +64,45 @@ class D(Step):
         return {'t': {'z': states['s']['x'] + 1}}
 
 
+class D2(Step):
+    """same layer as D (empty dependency list): must see z from before D's
+    update of this phase"""
+
+    def ports_schema(self):
+        return {'t': {'z': {'_default': 0},
+                      'z2': {'_default': 0, '_updater': 'set', '_emit': True}}}
+
+    def next_update(self, timestep, states):
+        return {'t': {'z2': states['t']['z'] + 10}}
+
+
+class D3(Step):
+    """depends on D: sees z of this phase"""
+
+    def ports_schema(self):
+        return {'t': {'z': {'_default': 0},
+                      'z3': {'_default': 0, '_updater': 'set', '_emit': True}}}
+
+    def next_update(self, timestep, states):
+        return {'t': {'z3': states['t']['z'] + 100}}
+
+
 class C(Composer):
     def generate_processes(self, config):
         return {'p': P({'ts': config['ts'], 'd': config['d']}),
                 'q': P({'ts': config['ts2'], 'd': config['d']})}
 
     def generate_steps(self, config):
-        return {'st': D()}
+        return {'st': D(), 'st2': D2(), 'st3': D3()}
 
     def generate_flow(self, config):
-        return {'st': []}
+        return {'st': [], 'st2': [], 'st3': [('st',)]}
 
     def generate_topology(self, config):
         return {'p': {'s': ('s',), 't': ('t',)},
                 'q': {'s': ('s',), 't': ('t2',)},
-                'st': {'s': ('s',), 't': ('t',)}}
+                'st': {'s': ('s',), 't': ('t',)},
+                'st2': {'t': ('t',)}, 'st3': {'t': ('t',)}}
 
 
 def jobs(tier):
@@ -286,7 +311,8 @@ def part_override(ctx, cfg):
     procs = {p[-1]: n.value for p, n in store_nodes(e.state).items()
              if not n.inner and isinstance(n.value, Process)}
     ov = {k: p.schema_override for k, p in procs.items()}
-    cl.append(all((bool(ov[k]) == (k == which)) for k in ('p', 'q', 'st')))
+    cl.append(all((bool(ov[k]) == (k == which))
+                  for k in ('p', 'q', 'st', 'st2', 'st3')))
     cl.append(list(ov[which].keys()) == [port])
     ctx.claim('C16.override', AND(cl), sig='override', info=lambda: dict(
         which=which, port=port, value=nv, state=val,
